@@ -332,7 +332,7 @@ SEMANTIC_NAMES = [b'content-length', b':status', b':method', b':authority', b'ho
                   b':scheme', b':protocol', b'connection', b'transfer-encoding', b'content-length']
 SEMANTIC_VALUES = [b'', b'\xff', b'1\xff', b'\xe9', b'abc', b'-1', b'1e3', b' 12', b'12 ', b'9' * 30, b'+5', b'0x10',
                    b'\x00', b'1,2', b'\xc3\xa9', b'\xd9\xa3', b'1_0', b'OK', b'2xx', b'1', b'100', b'099', b'trailers',
-                   b'\xf0\x9f', b'a=b; \xff']
+                   b'\xf0\x9f', b'a=b; \xff', b'1' * 4400, b'0' * 5000 + b'1']
 
 
 def semantic_field_block(ch):
@@ -351,6 +351,24 @@ def semantic_field_block(ch):
         if ch.chance(48):
             hs.append((name, ch.pick(SEMANTIC_VALUES)))
     return raw_block(hs)
+
+
+def place_adversarial_blocks(ch, frames):
+    """An adversarial header block in the place of a genuine one (HEADERS or PUSH_PROMISE), everything else
+    unchanged.  Returns (frames, number of blocks replaced)."""
+    frames = list(frames)
+    hits = 0
+    for i, f in enumerate(frames):
+        if len(f) < 9 or f == wire.PREFACE:
+            continue
+        length, t_, flags, rbit, sid = wire.parse_header(f[:9])
+        if t_ == wire.HEADERS and not flags & (wire.F_PADDED | wire.F_PRIORITY) and ch.chance(100):
+            frames[i] = wire.raw(t_, flags | wire.F_END_HEADERS, sid, adversarial_block(ch))
+            hits += 1
+        elif t_ == wire.PUSH_PROMISE and not flags & wire.F_PADDED and len(f) >= 13 and ch.chance(160):
+            frames[i] = wire.raw(t_, flags | wire.F_END_HEADERS, sid, f[9:13] + adversarial_block(ch))
+            hits += 1
+    return frames, hits
 
 
 def continuation_flood(ch, sid):
